@@ -9,6 +9,8 @@ ALLOWED_AXIOMS = []
 TABLES = ["t_classes", "t_ext_tol", "t_stack", "t_filter"]
 RULE = M.KeySetPart.RULE
 TRUSTED_BASE = ["as C01 (props/c01.py); Python re.search on plain alphanumeric literals is substring search (Filter/Proofs.v, C14)"]
-ASSUMPTIONS = ["as C01: slice normals pairwise np.allclose (N9), key-only filters, dictionaries are inputs",
+ASSUMPTIONS = ["as C01: slice normals pairwise np.allclose (the region of C01's open finding N9 is not generated here), key-only "
+               "filters; ground truth = the generator's record of every data set / dictionary; the default filter is judged "
+               "against props/c14lib (shipped exclude literals = lower bound, image position / orientation = the only rescued names)",
                "keys that are None in every file may be present or absent (C06 (A)); the key-set equation is stated modulo them"]
 PARTS = [M.KeySetPart]
